@@ -391,7 +391,10 @@ class Producer(object):
         # payload (topic/partition) level.
         payloads = []
         for (topic, partition), reqs in reqsByTopicPart.items():
-            if self.client._api_versions != 0:
+            # Message format 1 only once the broker has advertised its versions:
+            # while discovery is still pending (None) or fell back (0), the
+            # request may go out as Produce v0, which carries format 0.
+            if self.client._api_versions:
                 msgSet = create_message_set(reqs, self.codec, magic=1)
             else:
                 msgSet = create_message_set(reqs, self.codec)
